@@ -11,11 +11,11 @@ use crate::subjects::alpha::{self, Verdict};
 use crate::subjects::exec::run_lli;
 use serde_json::{Value, json};
 
-const PRELUDE: &str = "struct S\n{\n\ta: i32,\n\tb: i32,\n}\nword64 W\n{\n\ta: i32,\n\tb: i32,\n}\nconst KONST: i32 = 7;\nconst KARR: [3]i32 = [7, 8, 9];\n";
-const STATE_DECL: &str = "\tvar x: i32 = 1;\n\tvar arr: [3]i32 = [10, 20, 30];\n\tvar s: S = S { a: 100, b: 200 };\n\tvar w: W = W { a: 1000, b: 2000 };\n\tvar q: &i32 = &x;\n";
-const PRINT_STATE: &str = "\tprint!(x, \" \", arr[0], \" \", arr[1], \" \", arr[2], \" \", s.a, \" \", s.b, \" \", w.a, \" \", w.b, \"\\n\");\n";
-const INITIAL: [i64; 8] = [1, 10, 20, 30, 100, 200, 1000, 2000];
-const NAMES: [&str; 8] = ["x", "arr[0]", "arr[1]", "arr[2]", "s.a", "s.b", "w.a", "w.b"];
+const PRELUDE: &str = "struct S\n{\n\ta: i32,\n\tb: i32,\n}\nword64 W\n{\n\ta: i32,\n\tb: i32,\n}\nconst KONST: i32 = 7;\nconst KARR: [3]i32 = [7, 8, 9];\nstruct T\n{\n\ta: i32,\n\tarr: [3]i32,\n\tinner: S,\n}\n";
+const STATE_DECL: &str = "\tvar x: i32 = 1;\n\tvar arr: [3]i32 = [10, 20, 30];\n\tvar s: S = S { a: 100, b: 200 };\n\tvar w: W = W { a: 1000, b: 2000 };\n\tvar q: &i32 = &x;\n\tvar t: T = T { a: 5, arr: [6, 7, 8], inner: S { a: 9, b: 11 } };\n";
+const PRINT_STATE: &str = "\tprint!(x, \" \", arr[0], \" \", arr[1], \" \", arr[2], \" \", s.a, \" \", s.b, \" \", w.a, \" \", w.b, \" \", t.a, \" \", t.arr[0], \" \", t.arr[1], \" \", t.arr[2], \" \", t.inner.a, \" \", t.inner.b, \"\\n\");\n";
+const INITIAL: [i64; 14] = [1, 10, 20, 30, 100, 200, 1000, 2000, 5, 6, 7, 8, 9, 11];
+const NAMES: [&str; 14] = ["x", "arr[0]", "arr[1]", "arr[2]", "s.a", "s.b", "w.a", "w.b", "t.a", "t.arr[0]", "t.arr[1]", "t.arr[2]", "t.inner.a", "t.inner.b"];
 
 /// (name, parameter type, read expression, write statement, is pointer kind)
 const KINDS: [(&str, &str, &str, &str, bool); 8] = [
@@ -59,7 +59,7 @@ pub struct Cell
 	/// Some(codes): must be rejected with one of them; Some([]): must be accepted; None: open
 	pub expect: Option<Vec<u16>>,
 	/// expected state after the call when accepted and specified
-	pub after: Option<[i64; 8]>,
+	pub after: Option<[i64; 14]>,
 	/// whether the caller wrote `&` on the argument (for non-interference)
 	pub has_ampersand: bool,
 }
@@ -238,6 +238,53 @@ pub fn cells() -> Vec<Cell>
 			}
 		}
 	}
+	// second call level through a member: the callee passes (the address of) a member of its
+	// parameter on to a function that writes
+	let inners: [(&str, &str, &str, &str, usize); 8] = [
+		// (pass expression, inner parameter type, inner write, what, index of the written location)
+		("&p.arr", "&[]i32", "x[0] = 55;", "address of an array member to a slice pointer", 9),
+		("&p.arr", "&[3]i32", "x[0] = 55;", "address of an array member to a pointer to a sized array", 9),
+		("&p.a", "&i32", "x = 55;", "address of a member", 8),
+		("&p.inner", "&S", "x.a = 55;", "address of a structure member", 12),
+		("&p.inner.a", "&i32", "x = 55;", "address of a member of a member", 12),
+		("p.arr", "[]i32", "x[0] = 55;", "array member as a view", 9),
+		("p.inner", "S", "x.a = 55;", "structure member as a view", 12),
+		("p.a", "i32", "x = 55;", "member by value", 8),
+	];
+	for (first_type, caller_arg, first_name) in [("T", "t", "view of struct"), ("&T", "&t", "pointer to struct")]
+	{
+		for (pass, inner_type, inner_write, what, target) in inners
+		{
+			let text = format!(
+				"{PRELUDE}fn inner(x: {inner_type})\n{{\n\t{inner_write}\n}}\nfn callee(p: {first_type})\n{{\n\tinner({pass});\n}}\nfn main() -> u8\n{{\n{STATE_DECL}{PRINT_STATE}\tcallee({caller_arg});\n{PRINT_STATE}\treturn: 0\n}}\n"
+			);
+			let inner_is_pointer = inner_type.starts_with('&');
+			let (expect, after) = if !inner_is_pointer
+			{
+				// the inner function writes through a view or a by-value parameter
+				(Some(vec![530]), None)
+			}
+			else if first_type == "T"
+			{
+				// a mutable address of (a part of) a view cannot be taken
+				(Some(vec![530, 512, 513, 538, 500, 504, 506, 507]), None)
+			}
+			else
+			{
+				let mut st = INITIAL;
+				st[target] = 55;
+				(Some(vec![]), Some(st))
+			};
+			out.push(Cell {
+				what: format!("callee(p: {first_type}) passes {pass} ({what}) to inner(x: {inner_type}) which writes; caller passes {caller_arg}"),
+				class: format!("member passed on:{first_name}:{what}"),
+				text,
+				expect,
+				after,
+				has_ampersand: caller_arg.starts_with('&'),
+			});
+		}
+	}
 	out
 }
 
@@ -329,14 +376,14 @@ fn judge(cell: &Cell, index: usize, w: &mut WorkerCtx)
 				{
 					let parse = |l: &str| -> Vec<i64> { l.split(' ').filter_map(|x| x.parse().ok()).collect() };
 					let (before, after) = (parse(lines[0]), parse(lines[1]));
-					if before.len() == 8 && after.len() == 8
+					if before.len() == 14 && after.len() == 14
 					{
 						if before != INITIAL.to_vec()
 						{
 							ok = false;
 							w.result.violation("wrong-initial-state", size, &desc, || format!("{}: state before the call prints {before:?}", cell.what));
 						}
-						let changed: Vec<&str> = (0..8).filter(|i| before[*i] != after[*i]).map(|i| NAMES[i]).collect();
+						let changed: Vec<&str> = (0..14).filter(|i| before[*i] != after[*i]).map(|i| NAMES[i]).collect();
 						// non-interference: nothing changes unless the caller wrote `&`
 						if !changed.is_empty() && !cell.has_ampersand
 						{
